@@ -20,12 +20,12 @@ REPO = os.environ.get("FORSYS_REPO", "/repo")
 PID = "C09"
 RULE = ("states = meshes reachable from a parser output by histories over {generate_mesh x8, Frame, hold, release, gc}; de-duplicated on the full mesh snapshot; "
         "non-trivial = history contains an edit; classes = (source, vertices, edges, cells, history signature)")
-BOUND = {"quick": "depth 3 from 6 initial meshes (direct k=0/k=2, SE dump, WKT, tessellation, sub-tissue with hole) + depth 2 from every connected sub-tissue of a 7-cell base (k=0 and k=2) + depth 1 from the skeleton raster with ONE staircase corner (an L-shaped step on an interface), for every one of its 220 possible positions",
+BOUND = {"quick": "depth 3 from 17 initial meshes (WKT polygons with two nearly coincident corners, direct k=0/k=2, SE dump, WKT, tessellation, sub-tissue with hole, lens, rasterised skeletons: minimal, non-minimal, with reduce_amount, with a detached ring / pair of cells) + depth 2 from every connected sub-tissue of a 7-cell base (k=0 and k=2) + depth 1 from the skeleton raster with ONE staircase corner (an L-shaped step on an interface), for every one of its 220 possible positions",
          "thorough": "depth 4 from 8 initial meshes, depth 2 from every sub-tissue of an 11-cell base, shipped dumps and skeleton depth 2; depth 2 from every single-staircase-corner variant of two rasters"}
 ASSUMPTIONS = ["Vertex.own_big_edges is not constrained by the statement (reported as a diagnostic only)",
                "a call that raises leaves no state; SegmentationArtifactException (and the ValueError that chained contractions produce) is a refusal, not a verdict",
                "holding a shallow copy of the dictionaries models a user who keeps the previous mesh alive (so that __del__ of replaced objects runs late)"]
-REQUIRED_TAGS = {"all": ["resampled", "framed", "contracted", "source:direct", "source:se", "source:wkt", "source:tess", "source:raster", "held", "artefact_triangle", "staircase_corner"]}
+REQUIRED_TAGS = {"all": ["resampled", "framed", "contracted", "source:direct", "source:se", "source:wkt", "source:tess", "source:raster", "held", "artefact_triangle", "staircase_corner", "detached_piece", "nearly_coincident_corners"]}
 
 GM = [[ne, rse] for ne in (2, 3, 6, 12) for rse in (True, False)]
 OPS = [["gm"] + g for g in GM] + [["frame"], ["hold"], ["release"], ["gc"]]
@@ -101,12 +101,27 @@ def initial_mesh(src):
             pts.append(pts[0])
             rows.append("POLYGON ((" + ", ".join("%r %r" % (round(z.real, 6), round(z.imag, 6)) for z in pts) + "))")
         return fw.create_lattice(rows)
+    if kind == "wkt_pinch":
+        # three polygons written by hand: a cell pinched to a waist of width src[1] (two NON-consecutive corners of one polygon that
+        # close together) between two neighbours, at pixel-like coordinates src[2]; all corners are distinct points
+        import forsys.wkt as fw
+        d = src[1] / 2.0
+        ox, oy = src[2]
+        A = [(0, 0), (2, 0), (3, 1 - d), (4, 0), (6, 0), (6, 2), (4, 2), (3, 1 + d), (2, 2), (0, 2)]
+        B = [(0, 0), (0, -2), (6, -2), (6, 0), (4, 0), (3, 1 - d), (2, 0)]
+        C = [(0, 2), (2, 2), (3, 1 + d), (4, 2), (6, 2), (6, 4), (0, 4)]
+        rows = []
+        for poly in (A, B, C):
+            pts = [(x * 10.0 + ox, y * 10.0 + oy) for x, y in poly]
+            pts.append(pts[0])
+            rows.append("POLYGON ((" + ", ".join("%r %r" % (px, py) for px, py in pts) + "))")
+        return fw.create_lattice(rows)
     if kind == "tess":
         import forsys.tessellation as ft
         sites = T.hex_sites(src[1], src[2], 0.2, src[3]) * 10.0
         els = ft.create_lattice_elements([tuple(p) for p in sites], max_distance=src[4])
         return ft.create_lattice(*els)
-    if kind in ("raster", "raster_corner"):
+    if kind in ("raster", "raster_corner", "raster_iso"):
         # rasterised Voronoi tissue; src[2] False keeps the non-minimal junction pixels left by thinning (artefact triangles);
         # kind "raster_corner": the minimal raster plus ONE staircase corner (src[2] = its index in row-major order): a pixel that is
         # 4-adjacent to two diagonally adjacent pixels of one interface, so the line has an L-shaped step there, the smallest
@@ -117,7 +132,26 @@ def initial_mesh(src):
         from checks import c15
         nx, ny, jit, pat, scale = src[1]
         sites = T.hex_sites(nx, ny, jit / 100.0, pat)
-        img, topo = RR.raster(sites, scale, minimal_junctions=True if kind == "raster_corner" else src[2])
+        img, topo = RR.raster(sites, scale, minimal_junctions=True if kind != "raster" else src[2])
+        if kind == "raster_iso":
+            # a second, detached piece of tissue below the first: one closed ring (a cell all of whose pixels belong to it alone:
+            # the parser removes such cells) or two cells sharing a wall
+            H0, W0 = img.shape
+            big = np.zeros((H0 + 60, W0), img.dtype)
+            big[:H0, :] = img
+            y0, x0, n = H0 + 10, 30, 30
+            if src[2] == "diamond":
+                for i in range(n // 2 + 1):
+                    for yy, xx in ((y0 + i, x0 + n // 2 - i), (y0 + i, x0 + n // 2 + i), (y0 + n - i, x0 + n // 2 - i), (y0 + n - i, x0 + n // 2 + i)):
+                        big[yy, xx] = 1
+            else:
+                big[y0, x0:x0 + n + 1] = 1
+                big[y0 + n, x0:x0 + n + 1] = 1
+                big[y0:y0 + n + 1, x0] = 1
+                big[y0:y0 + n + 1, x0 + n] = 1
+                if src[2] == "two":
+                    big[y0:y0 + n + 1, x0 + n // 2] = 1
+            img = big
         if kind == "raster_corner":
             cy, cx = staircase_corners(img)[src[2]]
             img = img.copy()
@@ -166,7 +200,11 @@ class MeshHistories:
         import forsys.frames as ff
         from forsys.exceptions import SegmentationArtifactException
         src = self.sources[d["s"]]
-        tags = ["source:%s" % {"se_file": "se", "raster_corner": "raster"}.get(src[0], src[0])]
+        tags = ["source:%s" % {"se_file": "se", "raster_corner": "raster", "raster_iso": "raster", "wkt_pinch": "wkt"}.get(src[0], src[0])]
+        if src[0] == "wkt_pinch":
+            tags.append("nearly_coincident_corners")
+        if src[0] == "raster_iso":
+            tags.append("detached_piece")
         if src[0] == "raster_corner":
             tags.append("staircase_corner")
         try:
@@ -271,7 +309,9 @@ def build(tier, seed):
     hole = [c for c in sorted(at["C"], key=int) if c != inner]
     few = [["direct", "v5x4", None, 0], ["direct", "v5x4", None, 2], ["se", "v5x4", None, 2], ["wkt", "v5x4", None, 1],
            ["tess", 5, 4, seed + 1, 40.0], ["direct", "v5x5", hole, 0], ["raster", [5, 4, 15, 0, 40], True], ["raster", [5, 4, 15, 0, 40], False], ["direct", "lens", None, 3],
-           ["raster", [5, 4, 15, 0, 40], True, "reduce"], ["raster", [4, 4, 0, 0, 30], True, "reduce"]]
+           ["raster", [5, 4, 15, 0, 40], True, "reduce"], ["raster", [4, 4, 0, 0, 30], True, "reduce"],
+           ["wkt_pinch", 0.004, [800.0, 600.0]], ["wkt_pinch", 0.5, [0.0, 0.0]], ["wkt_pinch", 1e-6, [3.0, -2.0]],
+           ["raster_iso", [5, 4, 15, 0, 40], "square"], ["raster_iso", [5, 4, 15, 0, 40], "diamond"], ["raster_iso", [5, 4, 15, 0, 40], "two"]]
     light = [["gm", 2, True], ["gm", 6, True], ["gm", 3, False], ["frame"], ["hold"], ["release"]]
     spec = [5, 4, 15, 0, 40]
     corners = [["raster_corner", spec, i] for i in range(n_staircase_corners(spec))]
